@@ -414,6 +414,7 @@ impl Entry for TreeEntry {
 #[derive(Debug)]
 pub struct WalkTree {
     is_dir: bool,
+    is_empty: bool,
     pivot: usize,
     input: walkdir::IntoIter,
 }
@@ -430,6 +431,14 @@ impl WalkTree {
     ) -> Self {
         let root = root.into();
         let WalkBehavior { link, depth } = behavior.into();
+        // Depth is relative to the root segment, which excludes the pivot. If the maximum depth is
+        // less than the pivot, then no file at or beneath the root path is within the bounds (and
+        // this cannot be expressed as a depth relative to the root path).
+        let is_empty = match depth {
+            DepthBehavior::Max(max) => max.0 < pivot,
+            DepthBehavior::MinMax(minmax) => minmax.max().get() < pivot,
+            _ => false,
+        };
         let builder = WalkDir::new(root.as_path()).follow_links(match link {
             LinkBehavior::ReadFile => false,
             LinkBehavior::ReadTarget => true,
@@ -447,6 +456,7 @@ impl WalkTree {
         let builder = verif::apply_entry_order(builder);
         WalkTree {
             is_dir: false,
+            is_empty,
             pivot,
             input: builder.into_iter(),
         }
@@ -468,6 +478,9 @@ impl Iterator for WalkTree {
     type Item = Result<TreeEntry, WalkError>;
 
     fn next(&mut self) -> Option<Self::Item> {
+        if self.is_empty {
+            return None;
+        }
         let pivot = self.pivot;
         let (is_dir, next) = match self.input.next() {
             Some(result) => match result {
